@@ -144,8 +144,9 @@ def nVariants : Nat := 3
 
 /-- clauses that fail on one tree: "P" parsed text evaluates to the INSDC reading, "F" partial flags
 kept by the parser, "W" text written from the parsed structure (lower case "w": only its strict syntax),
-"E<k>" assembled structure variant k evaluates to the INSDC reading, "V<k>"/"v<k>" text written from it -/
-def failing (l : Loc) (parent : Str) (probes : List Str) (rp : String) (res : List String) : List String :=
+"E<k>" assembled structure variant k evaluates to the INSDC reading, "V<k>"/"v<k>" text written from it,
+"B<k>"/"T<k>"/"t<k>" the same location written by genbank.Build into a record and read back (k = 0 parsed, 1.. variants) -/
+def failing (l : Loc) (parent : Str) (probes : List Str) (rp : String) (res recs : List String) : List String :=
   let parents := parent :: probes
   let wantAll := parents.map (denote l)
   let want := S (wantAll.headD [])
@@ -164,12 +165,18 @@ def failing (l : Loc) (parent : Str) (probes : List Str) (rp : String) (res : Li
     match re.splitOn "|" with
     | ["ok", seq, built] => (if seq == want then [] else [s!"E{k}"]) ++ wv s!"V{k}" built
     | _ => [s!"E{k}", s!"V{k}"]
-  p ++ e
+  -- record leg: the location as genbank.Build writes it in a record, read back by genbank.Parse
+  -- ("B<k>" the feature read back evaluates to the INSDC reading, "T<k>"/"t<k>" the text read back)
+  let b := (recs.zipIdx).flatMap fun (rr, k) =>
+    match rr.splitOn "|" with
+    | ["ok", seq, text] => (if seq == want then [] else [s!"B{k}"]) ++ wv s!"T{k}" text
+    | _ => [s!"B{k}", s!"T{k}"]
+  p ++ e ++ b
 
 /-- known-finding class, decided on the case: a tree with a 3′-partial span may fail the STRICT syntax
 of its written texts (lower-case clauses), nothing else -/
 def explained (l : Loc) (clause : String) : Option String :=
-  if hasGt l && (clause.startsWith "w" || clause.startsWith "v") then some "C02-writer-3prime" else none
+  if hasGt l && (clause.startsWith "w" || clause.startsWith "v" || clause.startsWith "t") then some "C02-writer-3prime" else none
 
 structure TreeVerdict where
   inDom : Bool
@@ -179,7 +186,18 @@ structure TreeVerdict where
   tag : String
   detail : String
 
-def judgeTree (parent : Str) (probes : List Str) (tree rp : String) (res : List String) : TreeVerdict :=
+/-- the model's reply for one feature of the record leg: the text BuildLocationString writes for `p`, glued back
+unchanged, parsed, evaluated -/
+def modelRecord (p : PLoc) (parent : Str) : String :=
+  let text := buildLoc p
+  match parseLocation text with
+  | .ok q =>
+    match getSeq q parent with
+    | .ok s => "ok|" ++ S s ++ "|" ++ S text
+    | _ => "panic"
+  | _ => "panic"
+
+def judgeTree (parent : Str) (probes : List Str) (tree rp : String) (res recs : List String) : TreeVerdict :=
   match readLocCase tree with
   | none => { inDom := false, corr := false, fails := [], kf := none, tag := "bad-tree", detail := "bad tree " ++ tree }
   | some l =>
@@ -187,15 +205,18 @@ def judgeTree (parent : Str) (probes : List Str) (tree rp : String) (res : List 
     let mp := modelParse text parent
     let me := (variants l).map fun v => modelBuild v parent
     let inDom := inRange l parent.length && arity l
-    let fails := if inDom then failing l parent probes rp res else []
+    let mr := if recs.isEmpty then [] else
+      (match parseLocation text with | .ok p0 => modelRecord p0 parent | _ => "panic") ::
+        (variants l).map fun v => modelRecord v parent
+    let fails := if inDom then failing l parent probes rp res recs else []
     let allExplained := fails.all fun c => (explained l c).isSome
     let kf := if fails.isEmpty || !allExplained then none else fails.head?.bind (explained l)
     let tag := s!"ops{opCount l}/depth{depth l}" ++ (if hasGt l then "/gt" else "") ++
       (if hasDoubleCompl l then "/cc" else "") ++ (if text.length > 58 then "/wrapped" else "")
-    let corr := rp == mp && res == me
+    let corr := rp == mp && res == me && recs == mr
     { inDom, corr, fails, kf, tag,
       detail := if fails.isEmpty && corr then "" else
-        s!"tree={tree} text={S text} fails={fails} model: {mp} {me} impl: {rp} {res} denote={S (denote l parent)}" }
+        s!"tree={tree} text={S text} fails={fails} model: {mp} {me} {mr} impl: {rp} {res} {recs} denote={S (denote l parent)}" }
 
 def groupsOf (k : Nat) : List String → List (List String)
   | [] => []
@@ -212,15 +233,20 @@ def isHomopolymer (s : Str) : Bool :=
   | [] => true
   | c :: cs => cs.all (· == c)
 
+/-- the record leg (genbank.Build → genbank.Parse) is run for one-tree cases: the random trees, the long-text
+cases and the corpus -/
+def recLeg (trees : List String) : Bool := trees.length == 1
+
 def renderLoc (width : String) (parent : String) (trees : List String) : List String :=
-  "c02.batch" :: width :: toString nVariants :: parent :: trees.flatMap fun t =>
+  "c02.batch" :: width :: toString nVariants :: (if recLeg trees then "1" else "0") :: parent :: trees.flatMap fun t =>
     match readLocCase t with
     | some l => S (print l) :: (variants l).map fun v => S (showPLoc v)
     | none => "bad" :: List.replicate nVariants "bad"
 
 /-- cases:
   `loc parent tree…`        : every tree printed with `Insdc.print` (wrapped at 58 columns in the record, as GenBank
-                              does) and assembled in `nVariants` ways; harness op `c02.batch`
+                              does) and assembled in `nVariants` ways; harness op `c02.batch`; a one-tree case also runs the
+                              record leg: all its locations written by genbank.Build and read back by genbank.Parse
   `locw width parent tree…` : the same with another wrapping width (1 = a new line after every comma)
   `text parent raw`         : raw location text through `c02.parse` (outside the quantifier: correspondence only)
   `ploc parent struct`      : raw structure through `c02.build` (outside the quantifier: correspondence only) -/
@@ -240,10 +266,13 @@ def judgeLoc (parent : String) (trees out : List String) : Verdict :=
     { corr := false, judge := some false, cls := "FAILR/record-path",
       detail := "the texts of this batch, as features of one GenBank record, were not parsed to the texts sent" }
   | "ok" :: "together" :: rs =>
-    if rs.length != (1 + nVariants) * trees.length then { corr := false, judge := some false, cls := "bad-reply", detail := "reply length" } else
+    let g1 := (1 + nVariants) * trees.length
+    if rs.length != (if recLeg trees then 2 * g1 else g1) then { corr := false, judge := some false, cls := "bad-reply", detail := "reply length" } else
     let ps := parent.toList
     let probes := digitParents ps.length
-    let vs := (trees.zip (groupsOf (1 + nVariants) rs)).map fun (t, g) => judgeTree ps probes t (g.headD "") (g.drop 1)
+    let obs := groupsOf (1 + nVariants) (rs.take g1)
+    let recs := if recLeg trees then groupsOf (1 + nVariants) (rs.drop g1) else trees.map fun _ => []
+    let vs := (trees.zip (obs.zip recs)).map fun (t, (g, r)) => judgeTree ps probes t (g.headD "") (g.drop 1) r
     let dom := vs.filter (·.inDom)
     let newFail := dom.find? fun v => !v.fails.isEmpty && v.kf.isNone
     let knownFail := dom.find? fun v => v.kf.isSome
